@@ -98,7 +98,12 @@ def run_main(file, cmd, ev, mod, flags):
     ns["pvhook_compile"] = lambda src, fn, mode: ("CODE", src, fn, mode)
     class EvalStr(str):
         """the program text an -e expression evaluates to (kept by identity: nothing may rewrite it)"""
-    ns["pvhook_eval"] = lambda s, env: EvalStr("EVALUATED:" + s)
+    def eval_stub(s, globals_=None, locals_=None):
+        # contract of eval for an -e expression: names used inside comprehensions, generator expressions and lambdas of the expression are looked up in
+        # the *globals* mapping, so that is where `linesep` has to be
+        log.append(("eval", s, globals_, locals_))
+        return EvalStr("EVALUATED:" + s)
+    ns["pvhook_eval"] = eval_stub
 
     class CD:
         def __init__(self, of, normalized=False):
@@ -154,7 +159,7 @@ def run_main(file, cmd, ev, mod, flags):
         return ("usage" if e.args[0] == 2 else "exit status %r" % (e.args[0],)), log
 
 
-VALS = [None, "", "x = 1\\ny = '\u00e9 \\\\t'"]
+VALS = [None, "", "x = 1\\n\x0cy = '\u00e9 \u2028 \\\\t'\r\nz = '\x1c'\n"]      # escaped newline, form feed, U+2028, CR LF, a trailing newline: the text is taken as it is
 FLAGS = ["dis", "source", "dis_after", "no_normalize", "json"]
 
 
@@ -198,6 +203,10 @@ def h_main(ctx, cfg):
             else:
                 want = ("MODCODE", mod)
             ctx.prove("the_decoded_code_is_the_given_program_compiled_in_exec_mode", z3.BoolVal(code == want), detail="%r vs %r" % (code, want))
+            if ev is not None:
+                evs = [e for e in log if e[0] == "eval"]
+                ctx.prove("-e_expression_is_evaluated_once_with_linesep_among_its_globals", z3.BoolVal(len(evs) == 1 and evs[0][1] == ev and isinstance(evs[0][2], dict) and
+                          isinstance(evs[0][2].get("linesep"), str)), detail=repr(evs))
             ctx.prove("unrecognised_arguments_are_never_silently_dropped", z3.BoolVal(("parse_known_args",) not in log))
             prints = [e[1] for e in log if e[0] == "print"]
             cds = [p for p in prints if hasattr(p, "normalized")]
